@@ -125,6 +125,14 @@ let run toks =
       let rec take n l = if n = 0 then [] else (match l with [] -> [] | x :: r -> x :: take (n - 1) r) in
       let rec drop n l = if n = 0 then l else (match l with [] -> [] | _ :: r -> drop (n - 1) r) in
       "ok " ^ hx (take 32 okm) ^ " " ^ hx (take 12 (drop 32 okm))
+  | ["tokgen"; t; k; fp; i; now; err; _step] ->
+      (match generate_time_token (hash_of t) (bx k) (if fp = "none" then None else Some (bx fp)) (zd i) (zd now, err <> "0") with
+       | Ok tok -> "ok " ^ hx tok | Throw e -> exn_s e)
+  | ["tokval"; t; tok; k; fp; i; now; err; _step] ->
+      res_b (is_token_valid (hash_of t) (bx tok) (bx k) (if fp = "none" then None else Some (bx fp)) (zd i) (zd now, err <> "0"))
+  | ["spec.tokval"; t; tok; k; fp; i; now] ->
+      "ok " ^ bool_s (List.mem (bx tok) (candidates (hash_of t) (bx k) (if fp = "none" then None else Some (bx fp)) (zd now) (zd i)))
+  | ["tostring"; z] -> hx (to_string (zd z))
   | t :: _ -> failwith ("unknown op " ^ t)
   | [] -> ""
 
